@@ -20,6 +20,9 @@ import (
 //verif:override (github.com/cosmos/cosmos-sdk/x/bank/keeper.BaseKeeper).SendCoinsFromModuleToModule -> c14Send2
 //verif:override (github.com/cosmos/cosmos-sdk/x/bank/keeper.BaseKeeper).BurnCoins -> c14Burn
 //verif:override (github.com/cosmos/cosmos-sdk/x/bank/keeper.BaseSendKeeper).GetSendEnabledEntry -> c14SendEnabled
+//verif:override (github.com/cosmos/cosmos-sdk/x/bank/keeper.BaseSendKeeper).IsSendEnabledDenom -> c14IsSendEnabledDenom
+//verif:override (github.com/cosmos/cosmos-sdk/x/bank/keeper.BaseSendKeeper).IsSendEnabledCoin -> c14IsSendEnabledCoin
+//verif:override (github.com/cosmos/cosmos-sdk/x/bank/keeper.BaseSendKeeper).IsSendEnabledCoins -> c14IsSendEnabledCoins
 
 // denominations with an explicit SendEnabled=false entry (x/bank MsgSetSendEnabled): module-to-module moves ignore it
 var c14Frozen = map[string]bool{}
@@ -29,6 +32,20 @@ func c14SendEnabled(k bankkeeper.BaseSendKeeper, ctx sdk.Context, denom string) 
 		return banktypes.SendEnabled{Denom: denom, Enabled: false}, true
 	}
 	return banktypes.SendEnabled{}, false
+}
+
+// the other readers of the same entries (default: sending enabled)
+func c14IsSendEnabledDenom(k bankkeeper.BaseSendKeeper, ctx sdk.Context, denom string) bool { return !c14Frozen[denom] }
+func c14IsSendEnabledCoin(k bankkeeper.BaseSendKeeper, ctx sdk.Context, coin sdk.Coin) bool {
+	return !c14Frozen[coin.Denom]
+}
+func c14IsSendEnabledCoins(k bankkeeper.BaseSendKeeper, ctx sdk.Context, coins ...sdk.Coin) error {
+	for _, c := range coins {
+		if c14Frozen[c.Denom] {
+			return errors.New("send disabled for " + c.Denom)
+		}
+	}
+	return nil
 }
 
 var c14Denoms = []string{"aISLM", "aLIQUID1"}
